@@ -163,11 +163,11 @@ def cases(tier, seed):
                           "gradp": [scope.scattered_layout(27, 4), None], "I_R": [None, scope.scattered_layout(20, 5)]},
               "ghost": 1, "nspecies": 2, "time": 0.5, "seed": seed, "int_line": False})
     out.append({"desc": d, "opts": [[True, True, True], [False, False, False]], "source": "list", "schedules": False, "w": 20})
-    # two boxes of 64 x 64 x 60 cells in ONE state file (more than 16 MiB: byte offsets beyond 2^24, which single precision
+    # three boxes of 64 x 64 x 60 cells in ONE state file (more than 32 MiB: byte offsets beyond 2^24 and 2^25, which single precision
     # cannot represent), reactions as the last plotfile field
-    d = {"domain": [128, 64, 60], "levels": [[[[0, 0, 0], [63, 63, 59]], [[64, 0, 0], [127, 63, 59]]]]}
+    d = {"domain": [192, 64, 60], "levels": [[[[0, 0, 0], [63, 63, 59]], [[64, 0, 0], [127, 63, 59]], [[128, 0, 0], [191, 63, 59]]]]}
     d.update(GEOS[0])
-    d.update({"layouts": {"state": [{"files": [[1, 0]], "nums": [0]}], "gradp": [None], "I_R": [None]},
+    d.update({"layouts": {"state": [{"files": [[1, 2, 0]], "nums": [0]}], "gradp": [None], "I_R": [None]},
               "ghost": 1, "nspecies": 2, "time": 0.5, "seed": seed, "int_line": False})
     out.append({"desc": d, "opts": [[True, True, False]], "source": "list", "schedules": False, "w": 60})
     # seven levels towards the far corner, three species (ten state components): FAB header lines longer than 100 bytes
